@@ -1257,6 +1257,19 @@ namespace {
         rep.label_if( incl, "include-declarations" );
     }
 
+    void static_handle_labels( vg::ServerIf& srv, verif::Report& rep )
+    {
+        bool fixed = false, incl = false;
+        for ( auto& a : srv.db().attrs )
+        {
+            fixed = fixed || a.fixed_handle;
+            incl  = incl || a.kind == vg::A_INCLUDE;
+        }
+        rep.nontrivial = fixed || incl;
+        rep.label_if( fixed, "fixed-handles" );
+        rep.label_if( incl, "include-declarations" );
+    }
+
     void run( const Case& c, verif::Report& rep )
     {
         vg::ServerIf& srv = *vg::servers()[ c.decl ];
@@ -1267,7 +1280,13 @@ namespace {
         {
             if ( verif::property() == "C04" )
             {
-                static_handle_check( srv, r.m, rep );
+                // the complete enumeration of the handle space is a function of the declaration only: once per declaration and
+                // process (and always when a case is replayed); the other cases of that declaration add random histories
+                static std::set< int > enumerated;
+                if ( verif::Session::get().replay_mode || enumerated.insert( c.decl ).second )
+                    static_handle_check( srv, r.m, rep );
+                else
+                    static_handle_labels( srv, rep );
                 srv.reset();
                 Runner r2( srv, rep );
                 const bool nt = rep.nontrivial;
